@@ -212,7 +212,8 @@ SPECS = {
         "stub": ["RecordingBackend", "SimExecutor (parked real thread, released at plan-chosen points)", "simulated datetime for the run name", "SimMDP in some classes"],
     },
     "C02": {
-        "scenarios": [{"name": "rollout", "runs": {"quick": 8, "thorough": 1000000}, "chunks": {"quick": 1, "thorough": 1}}],
+        "scenarios": [{"name": "rollout", "runs": {"quick": 8, "thorough": 1000000}, "chunks": {"quick": 1, "thorough": 1}},
+                      {"name": "train", "runs": {"quick": 40, "thorough": 1000000}, "chunks": {"quick": 2, "thorough": 2}}],   # constructor-purity class only
         "budget_s": {"quick": 900, "thorough": 2400},
         "rule": "one evaluation = one seeded auto-reset rollout (50..600 steps) of a built-in environment (constructor variant, optional wrapper "
         "stack) driven by a seeded adversary action schedule (uniform samples / long hold of the low or high bound corner / alternation between "
